@@ -27,6 +27,11 @@ func mutatorTemplates() [][]any {
 		{J{"t": "for", "tag": "for", "var": bs("x"), "coll": eVar("q"), "body": []any{J{"t": "cycle", "group": bs("g2"), "vals": []any{bs("p"), bs("q"), bs("r")}},
 			nObj(eFilter(eLit(vInt(60)), "divided_by", eVar("x"))), nText(";")}}},
 		{J{"t": "for", "tag": "tablerow", "var": bs("x"), "coll": eVar("q"), "cols": eLit(vInt(2)), "body": []any{J{"t": "cycle", "group": bs("g1"), "vals": []any{bs("p"), bs("q")}}}}},
+		// a template that ends in a right-trim marker, and templates whose output starts with white space
+		{nText("end"), nObj(eVar("s")), J{"t": "trimR"}},
+		{J{"t": "assign", "name": bs("w"), "e": eLit(vInt(1))}, J{"t": "trimR"}},
+		{nText("  \n\tstart"), nObj(eVar("s"))},
+		{nObj(eLit(vStr("  lead"))), nText(" x")},
 	}
 }
 
@@ -36,7 +41,7 @@ func mapLoop(name string) []any {
 }
 
 func genSession(r *rand.Rand, i int) J {
-	g := &pgen{r: r, budget: 0, rich: true}
+	g := &pgen{r: r, budget: 0, rich: true, trims: r.Intn(2) == 0}
 	nenv := 2 + r.Intn(2)
 	envs := []any{}
 	reprs := []any{}
